@@ -7,33 +7,51 @@
 //   rhd-norad        --task-based-rhd, radiation off
 //   rhd-restart      rhd-norad stopped after step 2 (dumps on) and restarted to the end
 //   rhd-rad-restart  the same with radiation on
-// x every subset of the optional components the mode reads, with value variants
-//   ion : trackers, diffuse field, continuous source {off, normal, zero luminosity}
-//   rhd : live output {off, default outputs and ranges, all outputs with PDF
-//         ranges tight around the gas (cells in every bin, in the dropped last
-//         bin, at and above the upper limit)}, hydro mask {off, RescaledIC,
-//         BlockSyntax (not in the restart modes: that mask refuses to be dumped)},
-//         turbulence forcing, diffuse field, continuous source
-// x threads {1, 2} x grid {4^3 cells in 2x2x1 subgrids, 8^3 cells in 4x4x4
-// subgrids}. The rhd modes start from eight octants of different density and
-// velocity at equal pressure (ic_blocks_text).
-// Every configuration runs (1) in the AddressSanitizer build (asan for one
-// thread, ompasan for two) and (2) in the omp build (-g, for inlined frame
-// names) under valgrind memcheck.
+// x optional components with value variants (tables LIVE[], tracker populations,
+// LAYOUTS[] below; NOTES.md has the full list)
+//   ion : tracker population {off, file with 0 trackers, 1 tracker, 4 trackers
+//         (cells with 2,1,1), 10 trackers (cells with 3,4,2,1; one of the cells
+//         in the subgrid that is copied), Multi-type tracker sharing a cell}
+//         x tracker output {text, HDF5} x source copy level {0,1,2} x diffuse
+//         field x continuous source {off, normal, zero luminosity}
+//   rhd : live output {off, default outputs, all four outputs with tight PDF
+//         ranges, only the ionized surface density, enabled with no output,
+//         surface density + velocity PDF (1 bin, one output time), ionized
+//         surface density + density PDF (1 bin)}, hydro mask {off, RescaledIC,
+//         BlockSyntax (not in the restart modes)}, turbulence forcing, diffuse
+//         field, continuous source, thread count of the restarted leg
+// x threads {1, 2} x grid layout {4^3 cells in 2x2x1 subgrids, 8^3 in 4x4x4,
+// 16x9x4 in 4x3x2 (4x3x2 cells per subgrid: nx > ny > nz), 4x9x16 in 2x3x4
+// (2x3x4 per subgrid: nx < ny < nz), and the two crossed ones 8x9x8 in 2x3x4 /
+// 4x3x2 subgrids}. The rhd modes start from eight octants of different density
+// and velocity at equal pressure (ic_blocks_text).
+// Tools: (1) the AddressSanitizer build (asan for one thread, ompasan for more)
+// and (2) the omp build (-g, for inlined frame names) under valgrind memcheck.
 // Oracle: exit status 0, expected output files present and not empty, no
 // AddressSanitizer/UBSan report, no memcheck error other than "Syscall param
 // ... uninitialised byte(s)" (padding of raw structs written to files is not a
 // decision; those are counted in `extra`). Violation keys name the error kind
-// and the first frame inside the project, never the configuration.
+// and the first frame inside the project, never the configuration (exception:
+// the two degenerate tracker files carry a regime suffix, see key_suffix()).
 // Precondition (assumption): the rhd modes require a discrete source
 // distribution. Three probes with "PhotonSourceDistribution: type: None" are
 // run; their outcome is only recorded (extra.probes_not_judged), never judged.
-// quick: a pairwise covering subset per mode (every value of every component and
-// every pair of values incl. the thread count at least once); thorough: all.
+// Selection (covering arrays built by a deterministic greedy, see cover()):
+// quick   : both tools on a strength-2 array of the rhd family with the mode as
+//           one of the factors (plus every pair of first-version values with
+//           every mode) and a strength-2 array of the ion mode (layouts 0-3);
+//           AddressSanitizer alone additionally on a strength-2 array PER MODE
+//           over the whole alphabet (all six layouts).
+// thorough: both tools on a strength-3 array per mode over the whole alphabet
+//           that also contains every on/off subset of the optional components
+//           with every mode and thread count and with every mode and layout.
 #include "c12_util.hpp"
 
 #include <map>
+#include <queue>
 #include <set>
+#include <tuple>
+#include <unordered_set>
 
 using namespace c12;
 using verif::fmt;
@@ -49,17 +67,62 @@ static const char *MODE_NAME[] = {"ion", "rhd-rad", "rhd-norad", "rhd-restart", 
 static bool is_restart(int m) { return m == RHD_RESTART || m == RHD_RAD_RESTART; }
 static bool has_radiation(int m) { return m == RHD_RAD || m == RHD_RAD_RESTART; }
 
-// grid layouts: cells of the whole grid / number of subgrids
+// grid layouts: cells of the whole grid / number of subgrids. The box is the
+// cube [-1 pc, 1 pc]^3 for all of them (the turbulence forcing demands a cubic
+// box), so the cells of layouts 2-5 are not cubic.
 struct GridLayout {
   int cells[3], nsub[3];
+  int per_subgrid(int d) const { return cells[d] / nsub[d]; }
 };
-static GridLayout LAYOUTS[2] = {{{4, 4, 4}, {2, 2, 1}}, {{8, 8, 8}, {4, 4, 4}}};
+static const int NLAYOUT = 6;       // whole alphabet
+static const int NLAYOUT_QUICK = 4; // layouts run under both tools in the quick tier
+static const GridLayout LAYOUTS[NLAYOUT] = {
+    {{4, 4, 4}, {2, 2, 1}},  // 2x2x4 cells per subgrid, 4 subgrids
+    {{8, 8, 8}, {4, 4, 4}},  // 2x2x2 cells per subgrid, 64 subgrids (most never reached by a photon buffer)
+    {{16, 9, 4}, {4, 3, 2}}, // 4x3x2 cells per subgrid (nx > ny > nz), subgrid counts descending, 24 subgrids
+    {{4, 9, 16}, {2, 3, 4}}, // 2x3x4 cells per subgrid (nx < ny < nz), subgrid counts ascending
+    {{8, 9, 8}, {2, 3, 4}},  // 4x3x2 cells per subgrid, subgrid counts ascending
+    {{8, 9, 8}, {4, 3, 2}}}; // 2x3x4 cells per subgrid, subgrid counts descending
+
+// live output variants (rhd modes). S: surface density, I: ionized surface
+// density, D: density PDF, V: velocity PDF. "tight": PDF ranges tight around the
+// gas of ic_blocks_text(). interval: 0 = a quarter of the run (every step),
+// 1 = the default of the code (1 s: at every step), 2 = three times the run
+// (only output 0 is written).
+struct LiveVariant {
+  bool S, I, D, V;
+  int dbins, vbins; // 0: default of the code (100)
+  bool tight;
+  int interval;
+  const char *what;
+};
+static const int NLIVE = 7;
+static const LiveVariant LIVE[NLIVE] = {
+    {false, false, false, false, 0, 0, false, 0, "off (LiveOutputManager absent)"},
+    {true, false, true, true, 10, 10, false, 0, "default outputs S+D+V, default wide ranges, 10+10 bins"},
+    {true, true, true, true, 3, 4, true, 0, "all outputs S+I+D+V, tight ranges, 3 density / 4 velocity bins"},
+    {false, true, false, false, 0, 0, false, 1, "only I (the three default outputs switched off), default interval"},
+    {false, false, false, false, 0, 0, false, 0, "enabled with every output switched off"},
+    {true, false, false, true, 0, 1, true, 2, "S+V, 1 velocity bin, interval longer than the run (one output)"},
+    {false, true, true, false, 1, 0, true, 0, "I+D, 1 density bin"}};
+
+// tracker populations (ion mode); per-cell counts in brackets
+enum TrackerPop { TP_OFF = 0, TP_EMPTY, TP_ONE, TP_FOUR, TP_DENSE, TP_MULTI, NTPOP };
+static const char *TPOP_WHAT[NTPOP] = {
+    "trackers disabled",
+    "enabled, tracker file with 'number of trackers: 0'",
+    "1 tracker [1]",
+    "4 trackers in 3 cells [2,1,1], two subgrids",
+    "10 trackers in 4 cells [3,4,2,1], file order interleaved; the cells with 3 and 1 lie in the subgrid of the "
+    "source (copied for copy level > 0), the cells with 4 and 2 in the first and the last cell of the grid",
+    "3 trackers [2,1]: a tracker of type Multi (2 members) followed by a Spectrum tracker in the same cell, "
+    "and a Multi tracker alone in another cell (text output only)"};
 
 struct Config {
   int mode = 0;
   int threads = 1;
   // rhd factors
-  int live = 0;    // 0 off, 1 default outputs, 2 all outputs
+  int live = 0;    // index into LIVE
   int mask = 0;    // 0 off, 1 RescaledIC, 2 BlockSyntax
   int turb = 0;
   // both
@@ -67,17 +130,21 @@ struct Config {
   int cont = 0;    // 0 off, 1 normal, 2 present with zero luminosity (ion only)
   int layout = 0;  // index into LAYOUTS
   // ion
-  int trackers = 0;
+  int tpop = 0;    // TrackerPop
+  int tfmt = 0;    // 0 text files, 1 one HDF5 file (meaningless and 0 when tpop == TP_OFF)
+  int copy = 0;    // source copy level: 2^copy - 1 copies of the subgrid that holds the source
   // probe outside the lattice: "PhotonSourceDistribution: type: None"
   int nosource = 0;
   // restart modes: thread count of the restarted leg (0: the same as the first leg)
   int rthreads = 0;
   int restart_threads() const { return rthreads ? rthreads : threads; }
+  /// source copy level written to the parameter file
+  int copy_level() const { return mode == ION ? copy : (threads == 2 ? 1 : 0); }
 
   std::string label() const {
     std::string s = fmt("%s/t%d/grid%d", MODE_NAME[mode], threads, layout);
     if (mode == ION) {
-      s += fmt("/trackers=%d", trackers);
+      s += fmt("/trackers=%d%s/copy=%d", tpop, tpop ? (tfmt ? "hdf5" : "text") : "", copy);
     } else {
       s += fmt("/live=%d/mask=%d/turb=%d", live, mask, turb);
     }
@@ -90,19 +157,42 @@ struct Config {
   }
   std::string json(const std::string &tool) const {
     return fmt("{\"mode\": %d, \"threads\": %d, \"live\": %d, \"mask\": %d, \"turb\": %d, \"diffuse\": %d, "
-               "\"cont\": %d, \"trackers\": %d, \"nosource\": %d, \"layout\": %d, \"rthreads\": %d, \"tool\": \"%s\", "
-               "\"label\": \"%s\"}",
-               mode, threads, live, mask, turb, diffuse, cont, trackers, nosource, layout, rthreads, tool.c_str(),
-               label().c_str());
+               "\"cont\": %d, \"tpop\": %d, \"tfmt\": %d, \"copy\": %d, \"nosource\": %d, \"layout\": %d, "
+               "\"rthreads\": %d, \"tool\": \"%s\", \"label\": \"%s\"}",
+               mode, threads, live, mask, turb, diffuse, cont, tpop, tfmt, copy, nosource, layout, rthreads,
+               tool.c_str(), label().c_str());
   }
+  /// factor values; the rhd family shares one factor list with the mode in front
   std::vector< int > factors() const {
     if (mode == ION)
-      return {threads - 1, trackers, diffuse, cont, layout};
-    if (mode == 3 || mode == 4) // restart modes: the restarted leg may use another thread count
-      return {threads - 1, live, mask, turb, diffuse, cont, layout, rthreads};
-    return {threads - 1, live, mask, turb, diffuse, cont, layout};
+      return {threads - 1, tpop, tfmt, copy, diffuse, cont, layout};
+    return {mode, threads - 1, live, mask, turb, diffuse, cont, layout, rthreads};
+  }
+  /// on/off pattern of the optional components (one bit per component)
+  int subset_bits() const {
+    if (mode == ION)
+      return (tpop ? 1 : 0) | (diffuse ? 2 : 0) | (cont ? 4 : 0);
+    return (live ? 1 : 0) | (mask ? 2 : 0) | (turb ? 4 : 0) | (diffuse ? 8 : 0) | (cont ? 16 : 0);
+  }
+  bool operator<(const Config &o) const {
+    auto key = [](const Config &c) {
+      return std::make_tuple(c.mode, c.threads, c.live, c.mask, c.turb, c.diffuse, c.cont, c.layout, c.tpop, c.tfmt,
+                             c.copy, c.nosource, c.rthreads);
+    };
+    return key(*this) < key(o);
   }
 };
+
+/// regime suffix of violation keys for the two degenerate tracker files, so
+/// that a defect that only these inputs reach never shares its key with a
+/// defect seen with ordinary tracker files
+static std::string key_suffix(const Config &c) {
+  if (c.mode == ION && c.tpop == TP_EMPTY)
+    return "@empty-tracker-file";
+  if (c.mode == ION && c.tpop == TP_MULTI)
+    return "@multi-type-tracker";
+  return "";
+}
 
 // ---------------------------------------------------------------------------
 // parameter files
@@ -160,36 +250,119 @@ static std::string ion_text(const Config &c) {
   t += "TaskBasedIonizationSimulation:\n  number of buffers: 256\n  number of tasks: 4096\n"
        "  queue size per thread: 1024\n  shared queue size: 1024\n  number of photons: 300\n"
        "  number of iterations: 2\n  random seed: 42\n";
-  t += fmt("  source copy level: %d\n", c.threads == 2 ? 1 : 0);
+  t += fmt("  source copy level: %d\n", c.copy_level());
   if (c.diffuse)
     t += "  diffuse field: true\n";
-  if (c.trackers) {
+  if (c.tpop) {
     t += "  enable trackers: true\n";
     t += fmt("TrackerManager:\n  filename: trackers.yml\n  minimum number of photon packets: 0\n"
              "  HDF5 output: %s\n  HDF5 output name: trackers.hdf5\n",
-             c.threads == 2 ? "true" : "false");
+             c.tfmt ? "true" : "false");
   }
   return t;
 }
 
-/// text output (1 thread): all tracker types, two of them in one cell; HDF5
-/// output (2 threads): the two types that implement it (Tracker::create_group
-/// of the others is an explicit "not implemented" error), two per group, two in
-/// one cell
+/// SOURCE_POS: position of the single star in pc (common_text)
+static const double SOURCE_POS[3] = {0.1, 0.2, -0.1};
+
+/// position (text, in pc) inside cell (i,j,k) of the whole grid; `which`
+/// selects one of several distinct points of the cell, none of them on a face
+static std::string cell_position(const GridLayout &gl, const int idx[3], int which) {
+  static const double frac[4][3] = {{0.5, 0.5, 0.5}, {0.25, 0.625, 0.375}, {0.75, 0.375, 0.625}, {0.375, 0.75, 0.25}};
+  double x[3];
+  for (int d = 0; d < 3; ++d)
+    x[d] = -1. + (idx[d] + frac[which & 3][d]) * 2. / gl.cells[d];
+  return fmt("[%.17g pc, %.17g pc, %.17g pc]", x[0], x[1], x[2]);
+}
+
+struct TrackerSpec {
+  std::string type_text; // the lines below "tracker[i]:" that select the type
+  std::string position;
+  std::string name;      // output name ("" = default Tracker<i>[.txt])
+};
+
+/// the trackers of a configuration, in file order.
+/// Only the Absorption and WeightedSpectrum trackers implement HDF5 output
+/// (Tracker::create_group of the others is an explicit "not implemented"
+/// error), so the HDF5 variants use these two types (with three kinds of
+/// frequency bins, i.e. several HDF5 groups of sizes 1, 2, 3 and 4); the text
+/// variants use all types.
+static std::vector< TrackerSpec > tracker_specs(const Config &c) {
+  const GridLayout &gl = LAYOUTS[c.layout];
+  const bool h5 = c.tfmt != 0;
+  const std::string SPEC = "  type: Spectrum\n";
+  const std::string ABS = "  type: Absorption\n";
+  const std::string WS = "  type: WeightedSpectrum\n";
+  const std::string WS7 = "  type: WeightedSpectrum\n  FrequencyBins:\n    type: Linear\n    number of bins: 7\n";
+  const std::string WSL = "  type: WeightedSpectrum\n  FrequencyBins:\n    type: Level\n";
+  const std::string MULTI2 = "  type: Multi\n  number of trackers: 2\n  tracker[0]:\n    type: Spectrum\n"
+                             "    number of bins: 5\n  tracker[1]:\n    type: Absorption\n";
+  std::vector< TrackerSpec > v;
+  // cell of the source, another cell of the same subgrid, first and last cell
+  int src[3], same[3], first[3] = {0, 0, 0}, last[3];
+  for (int d = 0; d < 3; ++d) {
+    src[d] = (int)std::floor((SOURCE_POS[d] + 1.) / 2. * gl.cells[d]);
+    same[d] = src[d];
+    last[d] = gl.cells[d] - 1;
+  }
+  same[0] += (src[0] % gl.per_subgrid(0)) + 1 < gl.per_subgrid(0) ? 1 : -1;
+  switch (c.tpop) {
+  case TP_EMPTY:
+    break;
+  case TP_ONE:
+    v.push_back({h5 ? ABS : SPEC, cell_position(gl, same, 0), ""});
+    break;
+  case TP_FOUR:
+    // as in the first version of this check: fixed positions, the first two in
+    // one cell in every layout
+    if (h5) {
+      v.push_back({ABS, "[0.3 pc, 0.3 pc, 0.3 pc]", ""});
+      v.push_back({ABS, "[0.35 pc, 0.3 pc, 0.3 pc]", ""});
+      v.push_back({WS, "[-0.7 pc, 0.6 pc, 0.3 pc]", "special_tracker"});
+      v.push_back({WS, "[0.15 pc, 0.15 pc, -0.15 pc]", ""});
+    } else {
+      v.push_back({SPEC + "  number of bins: 20\n", "[0.3 pc, 0.3 pc, 0.3 pc]", ""});
+      v.push_back({SPEC + "  number of bins: 20\n", "[0.35 pc, 0.3 pc, 0.3 pc]", ""});
+      v.push_back({WS, "[-0.7 pc, 0.6 pc, 0.3 pc]", "special_tracker.txt"});
+      v.push_back({ABS, "[0.15 pc, 0.15 pc, -0.15 pc]", ""});
+    }
+    break;
+  case TP_DENSE: {
+    // A = `same` (3 trackers), B = first cell (4), C = last cell (2), D = cell of the source (1)
+    const std::string A1 = h5 ? ABS : SPEC + "  number of bins: 1\n", A2 = WS7, A3 = h5 ? WSL : ABS;
+    const std::string B1 = h5 ? WS : SPEC + "  number of bins: 20\n", B2 = h5 ? ABS : SPEC + "  number of bins: 2\n",
+                      B3 = h5 ? WS7 : WSL, B4 = h5 ? WS : ABS;
+    const std::string C1 = ABS, C2 = h5 ? WS7 : ABS, D1 = h5 ? ABS : WS;
+    v.push_back({A1, cell_position(gl, same, 0), ""});
+    v.push_back({B1, cell_position(gl, first, 0), ""});
+    v.push_back({C1, cell_position(gl, last, 0), ""});
+    v.push_back({A2, cell_position(gl, same, 1), ""});
+    v.push_back({B2, cell_position(gl, first, 1), ""});
+    v.push_back({D1, cell_position(gl, src, 1), h5 ? "special_tracker" : "special_tracker.txt"});
+    v.push_back({B3, cell_position(gl, first, 2), ""});
+    v.push_back({A3, cell_position(gl, same, 2), ""});
+    v.push_back({C2, cell_position(gl, last, 1), ""});
+    v.push_back({B4, cell_position(gl, first, 3), ""});
+    break;
+  }
+  case TP_MULTI:
+    v.push_back({MULTI2, cell_position(gl, same, 0), ""});
+    v.push_back({SPEC, cell_position(gl, same, 1), ""});
+    v.push_back({MULTI2, cell_position(gl, last, 0), ""});
+    break;
+  }
+  return v;
+}
+
 static std::string trackers_text(const Config &c) {
-  if (c.threads == 2)
-    return "number of trackers: 4\n"
-           "tracker[0]:\n  type: Absorption\n  position: [0.3 pc, 0.3 pc, 0.3 pc]\n"
-           "tracker[1]:\n  type: Absorption\n  position: [0.35 pc, 0.3 pc, 0.3 pc]\n"
-           "tracker[2]:\n  type: WeightedSpectrum\n  position: [-0.7 pc, 0.6 pc, 0.3 pc]\n"
-           "  output name: special_tracker\n"
-           "tracker[3]:\n  type: WeightedSpectrum\n  position: [0.15 pc, 0.15 pc, -0.15 pc]\n";
-  return "number of trackers: 4\n"
-         "tracker[0]:\n  type: Spectrum\n  position: [0.3 pc, 0.3 pc, 0.3 pc]\n  number of bins: 20\n"
-         "tracker[1]:\n  type: Spectrum\n  position: [0.35 pc, 0.3 pc, 0.3 pc]\n  number of bins: 20\n"
-         "tracker[2]:\n  type: WeightedSpectrum\n  position: [-0.7 pc, 0.6 pc, 0.3 pc]\n"
-         "  output name: special_tracker.txt\n"
-         "tracker[3]:\n  type: Absorption\n  position: [0.15 pc, 0.15 pc, -0.15 pc]\n";
+  const std::vector< TrackerSpec > v = tracker_specs(c);
+  std::string t = fmt("number of trackers: %zu\n", v.size());
+  for (size_t i = 0; i < v.size(); ++i) {
+    t += fmt("tracker[%zu]:\n", i) + v[i].type_text + "  position: " + v[i].position + "\n";
+    if (!v[i].name.empty())
+      t += "  output name: " + v[i].name + "\n";
+  }
+  return t;
 }
 
 static std::string rhd_text(const Config &c) {
@@ -201,7 +374,7 @@ static std::string rhd_text(const Config &c) {
   t += "TaskBasedRadiationHydrodynamicsSimulation:\n  number of iterations: 2\n  number of photons: 200\n"
        "  random seed: 42\n  number of buffers: 256\n  number of tasks: 4096\n  queue size per thread: 1024\n"
        "  shared queue size: 1024\n";
-  t += fmt("  source copy level: %d\n", c.threads == 2 ? 1 : 0);
+  t += fmt("  source copy level: %d\n", c.copy_level());
   t += fmt("  total time: %.17g s\n  maximum timestep: %.17g s\n  snapshot time: %.17g s\n", TOTAL_TIME,
            TOTAL_TIME / 4., TOTAL_TIME / 2.);
   t += fmt("  do radiation: %s\n", has_radiation(c.mode) ? "true" : "false");
@@ -213,24 +386,29 @@ static std::string rhd_text(const Config &c) {
     t += "  diffuse field: true\n";
   if (c.mask == 1)
     t += "HydroMask:\n  type: RescaledIC\n  center: [0.2 pc, 0.2 pc, 0.1 pc]\n  radius: 0.6 pc\n"
-         "  scale factor density: 0.5\n  scale factor velocity: 1.\n  scale factor pressure: 0.5\n  delta t: 0. s\n";
+         "  scale factor density: 0.5\n  scale factor velocity: 0.75\n  scale factor pressure: 0.375\n  delta t: 0. s\n";
   if (c.mask == 2)
     t += "HydroMask:\n  type: BlockSyntax\n  filename: maskblocks.yml\n";
   if (c.turb)
     t += fmt("TurbulenceForcing:\n  time step: %.17g s\n  forcing power: 1.e-6 m^2 s^-3\n  random seed: 17\n"
              "  minimum wave number: 1.\n  maximum wave number: 2.\n  peak forcing wave number: 1.5\n",
              TOTAL_TIME / 10.);
-  if (c.live == 1) // default outputs, default (wide) ranges
-    t += fmt("LiveOutputManager:\n  enabled: true\n  output interval: %.17g s\n  number of density bins: 10\n"
-             "  number of velocity bins: 10\n",
-             TOTAL_TIME / 4.);
-  if (c.live == 2) // all outputs; PDF ranges tight around the gas: see ic_blocks_text()
-    t += fmt("LiveOutputManager:\n  enabled: true\n  output interval: %.17g s\n"
-             "  output ionized surface density: true\n"
-             "  number of velocity bins: 4\n  maximum velocity: 2. km s^-1\n"
-             "  number of density bins: 3\n  minimum density: 1.6726e-22 g cm^-3\n"
-             "  maximum density: 1.3381e-21 g cm^-3\n",
-             TOTAL_TIME / 4.);
+  if (c.live) {
+    const LiveVariant &lv = LIVE[c.live];
+    t += "LiveOutputManager:\n  enabled: true\n";
+    if (lv.interval != 1)
+      t += fmt("  output interval: %.17g s\n", lv.interval == 0 ? TOTAL_TIME / 4. : 3. * TOTAL_TIME);
+    t += fmt("  output surface density: %s\n  output ionized surface density: %s\n  output density PDF: %s\n"
+             "  output velocity PDF: %s\n",
+             lv.S ? "true" : "false", lv.I ? "true" : "false", lv.D ? "true" : "false", lv.V ? "true" : "false");
+    if (lv.dbins)
+      t += fmt("  number of density bins: %d\n", lv.dbins);
+    if (lv.vbins)
+      t += fmt("  number of velocity bins: %d\n", lv.vbins);
+    if (lv.tight) // PDF ranges tight around the gas: see ic_blocks_text()
+      t += "  maximum velocity: 2. km s^-1\n  minimum density: 1.6726e-22 g cm^-3\n"
+           "  maximum density: 1.3381e-21 g cm^-3\n";
+  }
   if (is_restart(c.mode))
     t += "RestartManager:\n  output interval: 0. s\n";
   return t;
@@ -242,7 +420,9 @@ static std::string rhd_text(const Config &c) {
 /// in 3 bins) the speeds 0, 0.1, 0.3, 0.5, 0.7 vmax fall into the bins 0..3,
 /// 0.9 vmax into the deliberately dropped last bin, 1.0 and 1.5 vmax at and
 /// above the range; the densities lie below, at the lower limit, inside, at the
-/// upper limit and above the density range.
+/// upper limit and above the density range. The blocks overlap by 0.01 pc (a
+/// later block wins): with an odd number of cells per axis a cell midpoint lies
+/// exactly on an octant boundary, and "inside" must not depend on rounding.
 static std::string ic_blocks_text() {
   struct Oct {
     double n, v[3];
@@ -253,7 +433,7 @@ static std::string ic_blocks_text() {
   std::string t = "number of blocks: 8\n";
   for (int i = 0; i < 8; ++i) {
     const double cx = (i & 1) ? 0.5 : -0.5, cy = (i & 2) ? 0.5 : -0.5, cz = (i & 4) ? 0.5 : -0.5;
-    t += fmt("block[%d]:\n  origin: [%g pc, %g pc, %g pc]\n  sides: [1. pc, 1. pc, 1. pc]\n  type: cube\n"
+    t += fmt("block[%d]:\n  origin: [%g pc, %g pc, %g pc]\n  sides: [1.02 pc, 1.02 pc, 1.02 pc]\n  type: cube\n"
              "  number density: %g cm^-3\n  initial temperature: %.17g K\n  neutral fraction H: 1.\n"
              "  initial velocity: [%.17g km s^-1, %.17g km s^-1, %.17g km s^-1]\n",
              i, cx, cy, cz, o[i].n, 8000. * 100. / o[i].n, o[i].v[0], o[i].v[1], o[i].v[2]);
@@ -533,7 +713,7 @@ static std::string cmac_error_site(const std::string &log) {
 // ---------------------------------------------------------------------------
 struct Counters {
   std::atomic< uint64_t > runs{0}, processes{0}, syscall_param{0}, clean{0}, files_checked{0};
-  std::atomic< uint64_t > wall_ms{0};
+  std::atomic< uint64_t > wall_ms{0}, cpu_ms{0};
 };
 
 static std::vector< std::string > tool_prefix(const std::string &tool) {
@@ -564,14 +744,14 @@ static void check_files(verif::Result &R, Counters &cn, const Config &c, const s
   std::vector< std::string > want = {"snap_000.hdf5", "memory.txt", "time_log.txt", "p.param.used-values"};
   if (c.mode == ION) {
     want.push_back("snap_002.hdf5"); // after the second (last) iteration
-    if (c.trackers) {
-      if (c.threads == 2)
-        want.push_back("trackers.hdf5");
-      else {
-        want.push_back("Tracker0.txt");
-        want.push_back("Tracker1.txt");
-        want.push_back("special_tracker.txt");
-        want.push_back("Tracker3.txt");
+    if (c.tpop) {
+      const std::vector< TrackerSpec > specs = tracker_specs(c);
+      if (c.tfmt) {
+        if (!specs.empty())
+          want.push_back("trackers.hdf5");
+      } else {
+        for (size_t i = 0; i < specs.size(); ++i)
+          want.push_back(specs[i].name.empty() ? fmt("Tracker%zu.txt", i) : specs[i].name);
       }
     }
   } else {
@@ -580,11 +760,17 @@ static void check_files(verif::Result &R, Counters &cn, const Config &c, const s
     if (is_restart(c.mode))
       want.push_back("restart.dump");
     if (c.live) {
-      want.push_back("surface_density_0000.txt");
-      want.push_back("density_PDF_0001.txt");
-      want.push_back("velocity_PDF_0001.txt");
-      if (c.live == 2)
-        want.push_back("ionized_surface_density_0001.txt");
+      // output 0 is written at time 0, output 1 after the first step unless the
+      // interval is longer than the run
+      const LiveVariant &lv = LIVE[c.live];
+      const char *prefix[4] = {"surface_density_", "ionized_surface_density_", "density_PDF_", "velocity_PDF_"};
+      const bool on[4] = {lv.S, lv.I, lv.D, lv.V};
+      for (int k = 0; k < 4; ++k)
+        if (on[k]) {
+          want.push_back(std::string(prefix[k]) + "0000.txt");
+          if (lv.interval != 2)
+            want.push_back(std::string(prefix[k]) + "0001.txt");
+        }
     }
   }
   (void)first_leg_only;
@@ -595,7 +781,7 @@ static void check_files(verif::Result &R, Counters &cn, const Config &c, const s
       for (auto &ch : pat)
         if (isdigit((unsigned char)ch))
           ch = 'N';
-      R.violation("C12:missing-output:" + std::string(MODE_NAME[c.mode]) + ":" + pat,
+      R.violation("C12:missing-output:" + std::string(MODE_NAME[c.mode]) + ":" + pat + key_suffix(c),
                   fmt("%s under %s: exit status 0 but output file %s is missing or empty", c.label().c_str(),
                       tool.c_str(), w.c_str()),
                   c.json(tool));
@@ -609,7 +795,7 @@ static void run_job(verif::Result &R, Counters &cn, const Config &c, const std::
   rm_rf(dir);
   mkdir_p(dir);
   write_file(dir + "/p.param", c.mode == ION ? ion_text(c) : rhd_text(c));
-  if (c.mode == ION && c.trackers)
+  if (c.mode == ION && c.tpop)
     write_file(dir + "/trackers.yml", trackers_text(c));
   if (c.mode != ION && c.mask == 2)
     write_file(dir + "/maskblocks.yml", maskblocks_text());
@@ -655,6 +841,7 @@ static void run_job(verif::Result &R, Counters &cn, const Config &c, const std::
     if (!c.nosource)
       ++cn.processes;
     cn.wall_ms += (uint64_t)(rr.wall * 1000.);
+    cn.cpu_ms += (uint64_t)(rr.cpu * 1000.);
     const std::string log = verif::read_file(dir + "/" + logname);
     const std::string legname = legs.size() > 1 ? (li == 0 ? " (first leg, to step 2)" : " (restarted leg)") : "";
     std::vector< Finding > found;
@@ -694,14 +881,15 @@ static void run_job(verif::Result &R, Counters &cn, const Config &c, const std::
     }
     for (auto &f : found) {
       clean = false;
-      R.violation(f.key, fmt("%s under %s%s: %s", c.label().c_str(), tool.c_str(), legname.c_str(), f.detail.c_str()),
+      R.violation(f.key + key_suffix(c),
+                  fmt("%s under %s%s: %s", c.label().c_str(), tool.c_str(), legname.c_str(), f.detail.c_str()),
                   c.json(tool));
     }
     if (verbose) {
       printf("--- %s under %s%s: %s, %.1f s, %zu tool report(s)\n", c.label().c_str(), tool.c_str(),
              legname.c_str(), rr.describe().c_str(), rr.wall, found.size());
       for (auto &f : found)
-        printf("    %s :: %s\n", f.key.c_str(), f.detail.c_str());
+        printf("    %s%s :: %s\n", f.key.c_str(), key_suffix(c).c_str(), f.detail.c_str());
     }
     if (rr.timed_out) {
       clean = false;
@@ -720,7 +908,7 @@ static void run_job(verif::Result &R, Counters &cn, const Config &c, const std::
         for (auto &ch : key)
           if (ch == ' ')
             ch = '-';
-        R.violation(key,
+        R.violation(key + key_suffix(c),
                     fmt("%s under %s%s ended with %s; log tail: %s", c.label().c_str(), tool.c_str(),
                         legname.c_str(), rr.describe().c_str(), tail_of(dir + "/" + logname, 500).c_str()),
                     c.json(tool));
@@ -739,26 +927,36 @@ static void run_job(verif::Result &R, Counters &cn, const Config &c, const std::
 // ---------------------------------------------------------------------------
 // enumeration
 // ---------------------------------------------------------------------------
-static std::vector< Config > all_configs(int mode) {
+/// every configuration of one mode with layouts 0..nlayout-1 (the full lattice)
+static std::vector< Config > all_configs(int mode, int nlayout) {
   std::vector< Config > v;
   for (int th = 1; th <= 2; ++th)
-    for (int lay = 0; lay < 2; ++lay) {
+    for (int lay = 0; lay < nlayout; ++lay) {
       if (mode == ION) {
-        for (int tr = 0; tr < 2; ++tr)
-          for (int d = 0; d < 2; ++d)
-            for (int cs = 0; cs < 3; ++cs) {
-              Config c;
-              c.mode = mode;
-              c.threads = th;
-              c.layout = lay;
-              c.trackers = tr;
-              c.diffuse = d;
-              c.cont = cs;
-              v.push_back(c);
-            }
+        for (int tp = 0; tp < NTPOP; ++tp)
+          for (int tf = 0; tf < 2; ++tf) {
+            if (tp == TP_OFF && tf)
+              continue; // no tracker output without trackers
+            if (tp == TP_MULTI && tf)
+              continue; // Multi/Spectrum trackers have no HDF5 output ("not implemented" error)
+            for (int cp = 0; cp < 3; ++cp)
+              for (int d = 0; d < 2; ++d)
+                for (int cs = 0; cs < 3; ++cs) {
+                  Config c;
+                  c.mode = mode;
+                  c.threads = th;
+                  c.layout = lay;
+                  c.tpop = tp;
+                  c.tfmt = tf;
+                  c.copy = cp;
+                  c.diffuse = d;
+                  c.cont = cs;
+                  v.push_back(c);
+                }
+          }
       } else {
         const int nmask = is_restart(mode) ? 2 : 3;
-        for (int lv = 0; lv < 3; ++lv)
+        for (int lv = 0; lv < NLIVE; ++lv)
           for (int m = 0; m < nmask; ++m)
             for (int tu = 0; tu < 2; ++tu)
               for (int d = 0; d < 2; ++d)
@@ -784,40 +982,110 @@ static std::vector< Config > all_configs(int mode) {
   return v;
 }
 
-/// greedy pairwise covering subset; `rot` rotates the tie breaking
-static std::vector< Config > pairwise(const std::vector< Config > &all, size_t rot) {
-  typedef std::tuple< int, int, int, int > Pair; // factor i, value, factor j, value
-  std::set< Pair > need;
-  auto pairs_of = [](const Config &c) {
-    std::vector< Pair > ps;
-    std::vector< int > f = c.factors();
-    for (size_t i = 0; i < f.size(); ++i)
-      for (size_t j = i + 1; j < f.size(); ++j)
-        ps.push_back(Pair((int)i, f[i], (int)j, f[j]));
-    return ps;
-  };
-  for (auto &c : all)
-    for (auto &p : pairs_of(c))
-      need.insert(p);
-  std::vector< Config > out;
-  while (!need.empty()) {
-    size_t best = 0, bestn = 0;
-    for (size_t k = 0; k < all.size(); ++k) {
-      size_t idx = (k + rot) % all.size();
-      size_t n = 0;
-      for (auto &p : pairs_of(all[idx]))
-        n += need.count(p);
-      if (n > bestn) {
-        bestn = n;
-        best = idx;
-      }
-    }
-    if (bestn == 0)
-      break;
-    for (auto &p : pairs_of(all[best]))
-      need.erase(p);
-    out.push_back(all[best]);
+/// values of the first version of this check ("core" values): live output
+/// variants 0-2, layouts 0-1, tracker populations off / 4 trackers; every value
+/// of the other factors
+static bool core_value(const Config &c, size_t factor, int value) {
+  if (c.mode == ION)
+    return factor == 1 ? (value == TP_OFF || value == TP_FOUR) : factor == 6 ? value <= 1 : true;
+  return factor == 2 ? value <= 2 : factor == 7 ? value <= 1 : true;
+}
+
+/// what a covering array has to contain
+struct Goal {
+  int strength = 2;          // every `strength`-tuple of factor values (rhd family: the mode is a factor)
+  bool core_per_mode = false; // rhd family: additionally every pair of core values with every mode
+  int subsets = 0;           // 1: every (mode, thread count, on/off pattern of the components);
+                             // 2: also every (mode, layout, on/off pattern of the components)
+};
+
+/// Requirements a configuration satisfies (factor position and value packed
+/// into one byte each).
+static void requirements_of(const Config &c, const Goal &g, std::vector< uint64_t > &out) {
+  out.clear();
+  const std::vector< int > f = c.factors();
+  const size_t n = f.size();
+  auto code = [&](size_t i) { return (uint64_t)((i << 4) | (unsigned)f[i]) + 1; };
+  if (g.strength == 2) {
+    for (size_t i = 0; i < n; ++i)
+      for (size_t j = i + 1; j < n; ++j)
+        out.push_back(code(i) | code(j) << 8);
+  } else {
+    for (size_t i = 0; i < n; ++i)
+      for (size_t j = i + 1; j < n; ++j)
+        for (size_t k = j + 1; k < n; ++k)
+          out.push_back(code(i) | code(j) << 8 | code(k) << 16);
   }
+  if (g.core_per_mode && g.strength == 2 && c.mode != ION)
+    for (size_t i = 1; i < n; ++i)
+      for (size_t j = i + 1; j < n; ++j)
+        if (core_value(c, i, f[i]) && core_value(c, j, f[j]))
+          out.push_back(code(0) | code(i) << 8 | code(j) << 16);
+  if (g.subsets) {
+    out.push_back((uint64_t)1 << 40 | (uint64_t)c.mode << 32 | (uint64_t)c.threads << 24 | (uint64_t)c.subset_bits());
+    if (g.subsets == 2)
+      out.push_back((uint64_t)2 << 40 | (uint64_t)c.mode << 32 | (uint64_t)(c.layout + 1) << 16 |
+                    (uint64_t)c.subset_bits());
+  }
+}
+
+struct CoverStats {
+  size_t candidates = 0, requirements = 0, chosen = 0;
+};
+
+/// Deterministic greedy covering array: choose configurations from `all` until
+/// every requirement that some member of `all` satisfies is satisfied by a
+/// chosen one; `given` are configurations that are run anyway. Lazy evaluation:
+/// the number of new requirements of a candidate only ever decreases. `rot`
+/// rotates the tie breaking.
+static std::vector< Config > cover(const std::vector< Config > &all, const Goal &goal, size_t rot,
+                                   const std::vector< Config > &given, CoverStats &st) {
+  std::unordered_set< uint64_t > need;
+  std::vector< uint64_t > rq;
+  for (auto &c : all) {
+    requirements_of(c, goal, rq);
+    need.insert(rq.begin(), rq.end());
+  }
+  st.candidates += all.size();
+  st.requirements += need.size();
+  for (auto &c : given) {
+    requirements_of(c, goal, rq);
+    for (auto r : rq)
+      need.erase(r);
+  }
+  const size_t N = all.size();
+  typedef std::tuple< size_t, size_t, size_t > Entry; // new requirements, N - rotated order, index
+  std::priority_queue< Entry > pq;
+  auto count = [&](size_t idx) {
+    requirements_of(all[idx], goal, rq);
+    size_t n = 0;
+    for (auto r : rq)
+      n += need.count(r);
+    return n;
+  };
+  for (size_t k = 0; k < N; ++k) {
+    const size_t n = count(k);
+    if (n)
+      pq.push(Entry(n, N - (k + N - rot % N) % N, k));
+  }
+  std::vector< Config > out;
+  while (!need.empty() && !pq.empty()) {
+    Entry e = pq.top();
+    pq.pop();
+    const size_t idx = std::get< 2 >(e);
+    const size_t n = count(idx);
+    if (n == 0)
+      continue;
+    if (n < std::get< 0 >(e)) { // stale: re-insert with the current value
+      pq.push(Entry(n, std::get< 1 >(e), idx));
+      continue;
+    }
+    requirements_of(all[idx], goal, rq);
+    for (auto r : rq)
+      need.erase(r);
+    out.push_back(all[idx]);
+  }
+  st.chosen += out.size();
   return out;
 }
 
@@ -848,9 +1116,13 @@ int main(int argc, char **argv) {
     c.turb = atoi(verif::replay_field(txt, "turb").c_str());
     c.diffuse = atoi(verif::replay_field(txt, "diffuse").c_str());
     c.cont = atoi(verif::replay_field(txt, "cont").c_str());
-    c.trackers = atoi(verif::replay_field(txt, "trackers").c_str());
+    c.tpop = atoi(verif::replay_field(txt, "tpop").c_str());
+    c.tfmt = atoi(verif::replay_field(txt, "tfmt").c_str());
+    c.copy = atoi(verif::replay_field(txt, "copy").c_str());
     c.nosource = atoi(verif::replay_field(txt, "nosource").c_str());
-    c.layout = atoi(verif::replay_field(txt, "layout").c_str()) ? 1 : 0;
+    c.layout = std::max(0, std::min(NLAYOUT - 1, atoi(verif::replay_field(txt, "layout").c_str())));
+    c.live = std::max(0, std::min(NLIVE - 1, c.live));
+    c.tpop = std::max(0, std::min(NTPOP - 1, c.tpop));
     c.rthreads = atoi(verif::replay_field(txt, "rthreads").c_str());
     std::string tool = verif::replay_field(txt, "tool");
     if (c.threads < 1)
@@ -873,17 +1145,59 @@ int main(int argc, char **argv) {
     std::string tool;
   };
   std::vector< Job > jobs;
-  size_t nconfig = 0, nall = 0;
-  for (int m = 0; m < NMODE; ++m) {
-    std::vector< Config > all = all_configs(m);
-    nall += all.size();
-    std::vector< Config > sel = A.thorough() ? all : pairwise(all, (size_t)A.seed);
-    nconfig += sel.size();
-    for (auto &c : sel) {
-      jobs.push_back({c, "valgrind"});
-      jobs.push_back({c, "asan"});
+  size_t nconfig = 0, nconfig_asan_only = 0, nall = 0;
+  CoverStats st_both, st_asan;
+  const size_t rot = (size_t)A.seed;
+  std::vector< Config > both, asan_only;
+  Goal goal_thorough, goal_quick_both, goal_quick_asan;
+  goal_thorough.strength = 3;
+  goal_thorough.subsets = 2;
+  goal_quick_both.core_per_mode = true;
+  if (A.thorough()) {
+    // per mode: strength 3 over the whole alphabet + every on/off subset of the
+    // components with every thread count and with every layout
+    for (int m = 0; m < NMODE; ++m) {
+      const std::vector< Config > all = all_configs(m, NLAYOUT);
+      nall += all.size();
+      const std::vector< Config > sel = cover(all, goal_thorough, rot, {}, st_both);
+      both.insert(both.end(), sel.begin(), sel.end());
+    }
+  } else {
+    // both tools: strength 2, layouts 0..3, the four rhd modes as ONE family with
+    // the mode as a factor; the ion mode on its own
+    std::vector< Config > family;
+    for (int m = 0; m < NMODE; ++m) {
+      const std::vector< Config > all = all_configs(m, NLAYOUT_QUICK);
+      if (m == ION) {
+        const std::vector< Config > sel = cover(all, goal_quick_both, rot, {}, st_both);
+        both.insert(both.end(), sel.begin(), sel.end());
+      } else
+        family.insert(family.end(), all.begin(), all.end());
+    }
+    {
+      const std::vector< Config > sel = cover(family, goal_quick_both, rot, {}, st_both);
+      both.insert(both.end(), sel.begin(), sel.end());
+    }
+    // AddressSanitizer alone: strength 2 PER MODE over the whole alphabet
+    for (int m = 0; m < NMODE; ++m) {
+      const std::vector< Config > all = all_configs(m, NLAYOUT);
+      nall += all.size();
+      std::vector< Config > given;
+      for (auto &c : both)
+        if (c.mode == m)
+          given.push_back(c);
+      const std::vector< Config > sel = cover(all, goal_quick_asan, rot, given, st_asan);
+      asan_only.insert(asan_only.end(), sel.begin(), sel.end());
     }
   }
+  nconfig = both.size();
+  nconfig_asan_only = asan_only.size();
+  for (auto &c : both) {
+    jobs.push_back({c, "valgrind"});
+    jobs.push_back({c, "asan"});
+  }
+  for (auto &c : asan_only)
+    jobs.push_back({c, "asan"});
   // a dump written by a run with four threads, restarted with one thread (subgrids
   // owned by threads that do not exist in the restarted run)
   for (int m : {(int)RHD_RESTART, (int)RHD_RAD_RESTART})
@@ -892,12 +1206,24 @@ int main(int argc, char **argv) {
       c.mode = m;
       c.threads = 4;
       c.rthreads = 1;
-      c.layout = lay;
+      c.layout = A.thorough() ? lay + 2 * (m == RHD_RESTART) : lay;
       ++nconfig;
       ++nall;
+      both.push_back(c);
       jobs.push_back({c, "valgrind"});
       jobs.push_back({c, "asan"});
     }
+  if (getenv("C12_LIST")) {
+    printf("both tools: %zu configurations (candidates %zu, requirements %zu); asan only: %zu (candidates %zu, "
+           "requirements %zu)\n",
+           nconfig, st_both.candidates, st_both.requirements, nconfig_asan_only, st_asan.candidates,
+           st_asan.requirements);
+    for (auto &c : both)
+      printf("both  %s\n", c.label().c_str());
+    for (auto &c : asan_only)
+      printf("asan  %s\n", c.label().c_str());
+    return 0;
+  }
   // probes outside the property's precondition: no discrete source
   // (PhotonSourceDistribution type None). do_simulation dereferences the source
   // distribution unconditionally, so such a file is not a valid parameter file
@@ -919,11 +1245,13 @@ int main(int argc, char **argv) {
       jobs.push_back({c, "asan"});
     }
   }
-  // long jobs first: valgrind, two threads, radiation
+  // the cheap AddressSanitizer jobs first (0.3-0.7 s each; if the deadline cuts the run short it cuts the
+  // valgrind tail, not a whole tool), then the valgrind jobs, long ones first: restart (two processes), many
+  // threads, large grids, radiation
   std::stable_sort(jobs.begin(), jobs.end(), [](const Job &a, const Job &b) {
     auto w = [](const Job &j) {
-      return (j.tool == "valgrind" ? 16 : 0) + (j.c.layout ? 8 : 0) + (j.c.threads == 2 ? 2 : 0) +
-             (has_radiation(j.c.mode) ? 4 : 0) + (is_restart(j.c.mode) ? 1 : 0);
+      return (j.tool == "valgrind" ? 0 : 64) + (is_restart(j.c.mode) ? 32 : 0) + (j.c.threads >= 4 ? 16 : 0) +
+             (j.c.layout ? 8 : 0) + (has_radiation(j.c.mode) ? 4 : 0) + (j.c.threads == 2 ? 2 : 0);
     };
     return w(a) > w(b);
   });
@@ -947,11 +1275,52 @@ int main(int argc, char **argv) {
   R.evaluations = cn.processes;
   R.nontrivial = cn.runs - skipped.load() > 0 ? cn.runs.load() : 0;
   R.rule = "evaluation = one complete process of the simulation executable under AddressSanitizer or valgrind "
-           "(restart configurations: two); non-trivial case = one (mode, component subset, thread count, tool) "
-           "job that was started (all run a real simulation to its end)";
-  R.set("configurations", (double)nconfig);
+           "(restart configurations: two); non-trivial case = one (configuration, tool) job that was started (all "
+           "run a real simulation to its end); configuration = (mode, value of every optional component, thread "
+           "count, grid layout)";
+  R.set("configurations", (double)(nconfig + nconfig_asan_only));
+  R.set("configurations_under_both_tools", (double)nconfig);
+  R.set("configurations_under_asan_only", (double)nconfig_asan_only);
   R.set("configurations_in_full_lattice", (double)nall);
   R.set("jobs", (double)(jobs.size() - 6));
+  R.set("covering_requirements_both_tools", (double)st_both.requirements);
+  R.set("covering_requirements_asan_only", (double)st_asan.requirements);
+  R.set_str("selection",
+            A.thorough()
+                ? "per mode: greedy covering array of strength 3 over all factors (every triple of factor values that "
+                  "the lattice contains) that also contains every (mode, thread count, on/off subset of the optional "
+                  "components) and every (mode, grid layout, on/off subset); both tools; plus 4 restarts of a 4-thread "
+                  "dump with 1 thread"
+                : "both tools: greedy covering array of strength 2 over the four rhd modes with the mode as a factor, "
+                  "extended by every pair of first-version values (live 0-2, layouts 0-1, all values of the other "
+                  "factors) with every mode; strength 2 over the ion mode; layouts 0-3; plus 4 restarts of a 4-thread "
+                  "dump with 1 thread. AddressSanitizer only: strength 2 per mode over the whole alphabet (6 layouts)");
+  {
+    // the alphabet, as it was run
+    std::string a = "{\"layouts\": [";
+    for (int i = 0; i < NLAYOUT; ++i) {
+      const GridLayout &g = LAYOUTS[i];
+      a += fmt("%s{\"index\": %d, \"cells\": [%d, %d, %d], \"subgrids\": [%d, %d, %d], \"cells_per_subgrid\": [%d, %d, "
+               "%d]}",
+               i ? ", " : "", i, g.cells[0], g.cells[1], g.cells[2], g.nsub[0], g.nsub[1], g.nsub[2],
+               g.per_subgrid(0), g.per_subgrid(1), g.per_subgrid(2));
+    }
+    a += "], \"live_output_variants\": [";
+    for (int i = 0; i < NLIVE; ++i)
+      a += fmt("%s\"%d: %s\"", i ? ", " : "", i, LIVE[i].what);
+    a += "], \"tracker_populations\": [";
+    for (int i = 0; i < NTPOP; ++i)
+      a += fmt("%s\"%d: %s\"", i ? ", " : "", i, TPOP_WHAT[i]);
+    a += "], \"tracker_output\": [\"text files (Spectrum with 1/2/5/20/100 bins, WeightedSpectrum with Linear "
+         "100/7 and Level bins, Absorption, Multi)\", \"one HDF5 file (Absorption, WeightedSpectrum; dense "
+         "population: 4 groups of 4, 3, 1, 2 members)\"]";
+    a += ", \"source_copy_levels_ion\": [0, 1, 2], \"threads\": [1, 2], \"restart_thread_counts\": \"1->1, 1->2, "
+         "2->2, 2->1, 4->1\"";
+    a += ", \"hydro_mask\": [\"off\", \"RescaledIC (scale factors 0.5 / 0.75 / 0.375)\", \"BlockSyntax (not with "
+         "restart)\"], \"continuous_source\": [\"off\", \"on\", \"on with zero luminosity (ion)\"]";
+    a += fmt(", \"layouts_under_valgrind\": %d}", A.thorough() ? NLAYOUT : NLAYOUT_QUICK);
+    R.set_json("alphabet", a);
+  }
   {
     std::sort(g_probe_outcomes.begin(), g_probe_outcomes.end());
     std::string arr = "[";
@@ -963,6 +1332,7 @@ int main(int argc, char **argv) {
   R.set("valgrind_syscall_param_reports_not_counted_as_errors", (double)cn.syscall_param.load());
   R.set("output_files_checked", (double)cn.files_checked.load());
   R.set("process_wall_sum_s", cn.wall_ms.load() / 1000.);
+  R.set("process_cpu_sum_s", cn.cpu_ms.load() / 1000.); // independent of the load of the machine
   R.assumptions.push_back("memcheck reports 'Syscall param write(buf) points to uninitialised byte(s)' (raw structs "
                           "with padding written to dump/HDF5 files) are counted but are not violations: the property "
                           "speaks of decisions depending on uninitialised memory");
@@ -975,9 +1345,14 @@ int main(int argc, char **argv) {
                           "detect_leaks=0): leaks are not part of the property");
   R.assumptions.push_back("BlockSyntaxHydroMask is not combined with the restart mode: the code refuses to dump it "
                           "(cmac_error 'Restarting not supported for this mask')");
-  R.assumptions.push_back("with 2 threads the photoionization mode uses source copy level 1 and HDF5 tracker output, "
-                          "with 1 thread copy level 0 and text tracker output (the two tracker output paths are tied "
-                          "to the thread count, not enumerated independently)");
+  R.assumptions.push_back("the rhd modes use source copy level 1 with 2 threads and 0 otherwise (in the "
+                          "photoionization mode the copy level 0/1/2 is a factor of its own); Spectrum and Multi "
+                          "trackers are only combined with text output (their HDF5 output is an explicit 'not "
+                          "implemented' error)");
+  R.assumptions.push_back("a tracker file with 'number of trackers: 0' and a tracker of type Multi that shares its "
+                          "cell with a later tracker are taken to be valid input (nothing in the code or its "
+                          "documentation refuses them); violations seen with these two files carry the key suffixes "
+                          "@empty-tracker-file / @multi-type-tracker");
   R.assumptions.push_back("valgrind runs use the omp build (-g -fopenmp) for both thread counts so that inlined "
                           "frames carry function names; ASan runs use asan (1 thread) and ompasan (2 threads)");
   if (!g_keep) {
